@@ -15,7 +15,8 @@ vars == <<ti, w, obs>>
 
 Tr == Traces[ti]
 RawCfg == Tr.cfg
-Cfg == [RawCfg EXCEPT !.fail = P!Range(RawCfg.fail), !.pred = P!Range(RawCfg.pred)]
+NormSets(c) == [c EXCEPT !.fail = P!Range(c.fail), !.pred = P!Range(c.pred)]
+Cfg == [NormSets(RawCfg) EXCEPT !.stages = [i \in DOMAIN RawCfg.stages |-> NormSets(RawCfg.stages[i])]]
 Outs == P!Range(Tr.outs)
 NIn == Tr.nin
 
